@@ -292,6 +292,7 @@ func checkC05(w *World, r *Recorder) propInfo {
 		}
 	}
 	r.Count("sites_observed", len(col.sites))
+	ruleNoReflectAssign(w, r, "C05-E9")
 	r.Floor("C05-E8", 50)
 	return info
 }
